@@ -109,7 +109,11 @@ if not hasattr(cache_mod, 'prom_async_time'):
 cache_mod.prom_async_time = _prom_async_time
 
 
-async def scenario(nt, slots, lifetime, acts, keys, dts, drains, mode, trace=None, stats=None):
+async def scenario(nt, slots, lifetime, acts, keys, dts, drains, mode, trace=None, stats=None, auto=None):
+    """auto = None: the director completes loads only through actions 1-4.  auto = list of bools (sequential family):
+    after every LOOKUP step the loop is drained and, if that lookup started a load, the load is ended at once - with
+    LoadError when auto[s] - and the loop drained again, so the history is a sequence of finished lookups and clock
+    advances (cache hits included: nothing is pruned when there is no pending load)."""
     stats = {} if stats is None else stats
     stats.update({'complete': False, 'loader_cancels': 0, 'follower_cancels': 0, 'shared': False, 'bad': None})
     clock = [0]
@@ -240,6 +244,16 @@ async def scenario(nt, slots, lifetime, acts, keys, dts, drains, mode, trace=Non
                         stats['shared'] = True
                 tasks.append(asyncio.ensure_future(runner(i, k)))
                 what = f'lookup{i}(key{k})'
+                if auto is not None:
+                    await sched.settle()
+                    for rec in list(loads):
+                        if not rec[1].done():
+                            if auto[s]:
+                                rec[1].set_exception(LoadError())
+                                what += '!fail'
+                            else:
+                                rec[1].set_result(None)
+                    await sched.settle()
             elif a <= 4:
                 finish_load((a - 1) % 2, a >= 3, s)
                 what = ('fail' if a >= 3 else 'complete') + ('-oldest' if (a - 1) % 2 == 0 else '-newest')
@@ -334,6 +348,42 @@ def _mk(nt, k):
     return check, reach
 
 
+def split_seq(k, args):
+    """positional layout: slots, lifetime, a1..a_{k-1} (bool: True = advance, False = lookup), key1.., dt1.., fail0..fail_{k-1}"""
+    n = k - 1
+    acts = [0] + [5 if x else 0 for x in args[2:2 + n]]
+    return (args[0], args[1], acts, [0] + list(args[2 + n:2 + 2 * n]), [0] + list(args[2 + 2 * n:2 + 3 * n]),
+            [True] * k, list(args[2 + 3 * n:2 + 3 * n + k]))
+
+
+def _mk_seq(k):
+    def check(*args):
+        slots, lifetime, acts, keys, dts, drains, fails = split_seq(k, args)
+        try:
+            sched.run_det(scenario(k, slots, lifetime, acts, keys, dts, drains, 0, auto=fails))
+        except sched.Prune:
+            return True
+        except Bad:
+            return False
+        return True
+
+    def reach(*args):
+        slots, lifetime, acts, keys, dts, drains, fails = split_seq(k, args)
+        st = {}
+        try:
+            sched.run_det(scenario(k, slots, lifetime, acts, keys, dts, drains, 0, None, st, auto=fails))
+        except sched.Prune:
+            return True
+        except Bad:
+            pass
+        return not st.get('complete')
+
+    return check, reach
+
+
+checkseq_5, reachseq_5 = _mk_seq(5)
+checkseq_6, reachseq_6 = _mk_seq(6)
+checkseq_7, reachseq_7 = _mk_seq(7)
 check_2_3, reach_2_3 = _mk(2, 3)
 check_2_4, reach_2_4 = _mk(2, 4)
 check_2_5, reach_2_5 = _mk(2, 5)
@@ -343,10 +393,21 @@ check_3_5, reach_3_5 = _mk(3, 5)
 check_3_6, reach_3_6 = _mk(3, 6)
 
 
-def run_concrete(nt, slots, lifetime, acts, keys, dts, drains):
+def replay_seq(args, meta):
+    k = meta['k']
+    pos = ([args['slots'], args['lifetime']] + [args[f'a{i}'] for i in range(1, k)] + [args[f'key{i}'] for i in range(1, k)]
+           + [args[f'dt{i}'] for i in range(1, k)] + [args[f'f{i}'] for i in range(k)])
+    slots, lifetime, acts, keys, dts, drains, fails = split_seq(k, pos)
+    ok, why, trace = run_concrete(k, slots, lifetime, acts, keys, dts, drains, auto=fails)
+    if ok:
+        return True, None, why
+    return False, classify(trace, why), f'{why}; sequential schedule (action, drain, clock, lookup outcomes, cached keys) = {trace}'
+
+
+def run_concrete(nt, slots, lifetime, acts, keys, dts, drains, auto=None):
     trace = []
     try:
-        sched.run_plain(scenario(nt, slots, lifetime, acts, keys, dts, drains, -1, trace))
+        sched.run_plain(scenario(nt, slots, lifetime, acts, keys, dts, drains, -1, trace, auto=auto))
     except sched.Prune:
         return True, 'schedule not well-formed', trace
     except Bad as e:
@@ -373,6 +434,8 @@ def classify(trace, why):
 def replay(args, meta):
     """Plain asyncio (stock loop), no CrossHair; the failing schedule is first shrunk by deleting steps while it
     still fails on the real class with no new kind of cancel (only to name the mechanism).  -> (ok, class, why)"""
+    if meta.get('seq'):
+        return replay_seq(args, meta)
     nt, k = meta['nt'], meta['k']
     pos = ([args['slots'], args['lifetime']] + [args[f'a{i}'] for i in range(1, k)] + [args[f'key{i}'] for i in range(1, k)]
            + [args[f'dt{i}'] for i in range(1, k)] + [args[f'd{i}'] for i in range(k - 1)] + [args['mode']])
